@@ -60,3 +60,14 @@ Theorem C08_adjust_is_the_regenerated_one_fixedcapacity :
   forall c st need, fl c = FFCV -> BaseTV_u8.InRange st ->
     BaseTV_u8.one c (Base_u8.fcv_adjustCapacity st need) = BaseTV_u8.res1 (adjust c st need).
 Proof. exact BaseTV_u8.fcv_adjust_tv. Qed.
+(* emplace_back / push_back at the limit: the capacity request of the regenerated code is the model's adjust_one / adjust.
+   For uint32_t this obligation was NOT provable on the tree before the repair "emplace / emplace_back compute the needed size
+   in uintmax_t": size() + 1U wrapped to 0 at size = max (known_findings.json, fixed entry with the 4 GiB witness). *)
+Theorem C08_emplace_back_is_the_regenerated_one_vector_u32 :
+  forall c, cM c = 4294967295 -> 4294967295 < 2 ^ 62 -> mk_wrap c = wrap_u32 -> forall st, fl c = FVec -> BaseTV_u32.InRange st -> size_ st <= capa_ st ->
+    BaseTV_u32.one c (Base_u32.std_emplace_back st) = BaseTV_u32.w_incr c (adjust_one c st).
+Proof. exact BaseTV_u32.std_emplace_back_tv. Qed.
+Theorem C08_push_back_is_the_regenerated_one_smallvector_u8 :
+  forall c, cM c = 255 -> cfg_ok c -> 255 < 2 ^ 62 -> mk_wrap c = wrap_u8 -> forall st, fl c = FSV -> Words.WInv 255 (cN c) st ->
+    BaseTV_u8.one c (Base_u8.sv_push_back st) = BaseTV_u8.w_incr c (adjust c st (b_size c st + 1)).
+Proof. exact BaseTV_u8.sv_push_back_tv. Qed.
